@@ -265,10 +265,18 @@ async def run_submission(w, fe, sub, plan, ctx=None):
             return
         bid = max(v.batches)
         state['foreign'] += 1
-        body = {'update': {'token': f'foreign-{state["foreign"]}', 'n_jobs': 1}, 'bunch': [
+        # half of the foreign updates bring job groups of their own (the other submitter's group bunch can then arrive while
+        # this client's update has reserved its group ids but not sent them yet)
+        ng = state['foreign'] % 3 if state['foreign'] % 2 else 0
+        body = {'update': {'token': f'foreign-{state["foreign"]}', 'n_jobs': 1, 'n_job_groups': ng}, 'bunch': [
             {'job_id': 1, 'process': {'type': 'docker', 'command': ['true'], 'image': 'u'}, 'resources': {'cpu': '1', 'memory': 'standard', 'storage': '1Gi'},
-             'attributes': {'uid': f'foreign-{state["foreign"]}'}}]}
-        await fe.request('POST', f'/api/v1alpha/batches/{bid}/update-fast', token='tok-alice', json=body)
+             'attributes': {'uid': f'foreign-{state["foreign"]}'}}],
+                'job_groups': [{'job_group_id': g, 'absolute_parent_id': 0, 'attributes': {'gid': f'foreign-{state["foreign"]}-{g}'}} for g in range(1, ng + 1)]}
+        if ng and ctx is not None:
+            ctx.count('foreign_updates_with_job_groups_interleaved')
+        r = await fe.request('POST', f'/api/v1alpha/batches/{bid}/update-fast', token='tok-alice', json=body)
+        if ctx is not None:
+            ctx.seen('foreign_update_answers', f'{"with" if ng else "without"}-groups:{r.status}')
     tr = Transport(fe, plan, 'tok-alice', interleave)
     bc = BatchClient('bp-a', 'http://batch.hail.invalid', Session(credentials=HailExplicitTokenCredentials('tok-alice'), http_session=tr), {})
     b = bc.create_batch(attributes={'name': 'c09'})
